@@ -518,7 +518,14 @@ func cliExec(c *Ctx, op string) {
 	} else if !documentedExit[code] {
 		c.PropFail("cli-undocumented-exit", fmt.Sprintf("rio %q exited with undocumented code %d", args, code), op)
 	}
-	if code == 0 && strings.TrimSpace(stdout.String()) == "" {
+	// (the parser's own commands and flags — help, completion — are not operations: they print usage, no result event)
+	parserOwn := false
+	for _, a := range args {
+		if a == "help" || strings.HasPrefix(a, "--completion-") || strings.HasPrefix(a, "--help") {
+			parserOwn = true
+		}
+	}
+	if code == 0 && strings.TrimSpace(stdout.String()) == "" && !parserOwn {
 		c.PropFail("cli-no-result", fmt.Sprintf("rio %q succeeded without printing a result", args), op)
 	}
 	if code != 0 && strings.TrimSpace(stderr.String()) == "" && strings.TrimSpace(stdout.String()) == "" {
@@ -651,6 +658,16 @@ func cliEngine(c *Ctx) {
 	for _, code := range []string{"401", "403", "402", "407", "410", "418", "429", "451", "500", "502", "301", "302", "204", "206"} {
 		vecs = append(vecs, []string{"scan", "tar", "--source=@HTTP@/s" + code + "/w.tgz"}, []string{"unpack", tid, "@W@/dst", "--source=ca+@HTTP@/s" + code},
 			[]string{"--format=json", "mirror", zid, "--target=ca+file://@W@/wh", "--source=@HTTP@/s" + code + "/w.zip"})
+	}
+	// the parser's own commands and flags; filesets whose root (or every entry) a filter ejects
+	vecs = append(vecs, []string{"help"}, []string{"help", "pack"}, []string{"help", "unpack", "x"}, []string{"help", "nosuch"}, []string{"--help"}, []string{"pack", "--help"},
+		[]string{"--help-long"}, []string{"--help-man"}, []string{"--format=json", "help"}, []string{"--version"}, []string{"help", "--format=json", "mirror"},
+		[]string{"--completion-bash"}, []string{"--completion-script-bash"}, []string{"--completion-script-zsh"}, []string{"--completion-bash", "pack"})
+	for _, fm := range []string{"tar", "zip"} {
+		for _, fl := range []string{"dev=ignore", "dev=reject", "dev=keep", "uid=1,gid=1,mtime=@5,sticky=ignore,setid=ignore,dev=ignore"} {
+			vecs = append(vecs, []string{"pack", fm, "/dev/null", "--filters", fl}, []string{"pack", fm, "@W@/special/chr", "--filters", fl},
+				[]string{"--format=json", "pack", fm, "/dev/null", "--filters", fl, "--target=ca+file://@W@/wh"}, []string{"pack", fm, "@W@/special/fifo", "--filters", fl})
+		}
 	}
 	for _, v := range vecs {
 		cliExec(c, mk(v...))
